@@ -43,12 +43,13 @@ Theorem C11_insert_batch_path_atomic : forall f ctx d t ok rows d' log o tb,
 Proof. exact exec_insert_no_triggers_atomic. Qed.
 Print Assumptions C11_insert_batch_path_atomic.
 
-(** successful multi-row statements apply all of their rows.  Side conditions: no trigger body executed by the
-    statement touches the statement's own table ([frame_on f t]; otherwise "its rows" is not well defined), table keys
-    are distinct, and for UPDATE / DELETE the table has no foreign key onto itself (referential actions could then
+(** successful multi-row statements apply all of their rows.  Side conditions: the bodies of the database's triggers,
+    run on any database with the same tables and triggers, do not touch the statement's own table ([frame_on f d t];
+    otherwise "its rows" is not well defined -- met e.g. by audit-style bodies, C11_frame_condition_satisfiable), table
+    keys are distinct, and for UPDATE / DELETE the table has no foreign key onto itself (referential actions could then
     rewrite the table under the statement). *)
 Theorem C11_ok_insert_all_applied : forall f ctx d t tb rows d' log n vrows,
-  exec (S f) ctx d (SInsert t true rows) = (d', log, Ok n) -> frame_on f t ->
+  exec (S f) ctx d (SInsert t true rows) = (d', log, Ok n) -> frame_on f d t ->
   get_table d t = Some tb -> validate_rows d tb ctx rows 0 [] = inr vrows ->
   exists tb', get_table d' t = Some tb' /\ tb_rows tb' = tb_rows tb ++ vrows /\ n = length vrows.
 Proof. exact exec_insert_all_applied. Qed.
@@ -64,7 +65,7 @@ Proof. exact insert_ok_all_applied. Qed.
 Print Assumptions C11_ok_insert_batch_all_applied.
 
 Theorem C11_ok_update_all_applied : forall f ctx d t asg w d' log n tb,
-  exec (S f) ctx d (SUpdate t asg w) = (d', log, Ok n) -> frame_on f t ->
+  exec (S f) ctx d (SUpdate t asg w) = (d', log, Ok n) -> frame_on f d t ->
   wf d -> get_table d t = Some tb -> references t tb = [] ->
   exists d1 ups tb',
     update_plan ctx d1 tb asg w = inr ups /\ get_table d1 t = Some tb
@@ -80,13 +81,19 @@ Proof. exact exec_update_all_applied. Qed.
 Print Assumptions C11_ok_update_all_applied.
 
 Theorem C11_ok_delete_all_applied : forall f ctx d t w d' log n tb,
-  exec (S f) ctx d (SDelete t w) = (d', log, Ok n) -> frame_on f t ->
+  exec (S f) ctx d (SDelete t w) = (d', log, Ok n) -> frame_on f d t ->
   wf d -> get_table d t = Some tb -> references t tb = [] ->
   exists tb', get_table d' t = Some tb'
     /\ tb_rows tb' = map snd (filter (fun ir => negb (selected ctx w ir)) (indexed 0 (tb_rows tb)))
     /\ n = length (filter (selected ctx w) (indexed 0 (tb_rows tb))).
 Proof. exact exec_delete_all_applied. Qed.
 Print Assumptions C11_ok_delete_all_applied.
+
+(** the frame condition holds whenever every trigger body is one INSERT into a table other than [t] that has no INSERT
+    trigger itself (the audit-table pattern) *)
+Theorem C11_frame_condition_satisfiable : forall f d a t, audit_bodies d a -> a <> t -> frame_on (S f) d t.
+Proof. exact audit_bodies_frame. Qed.
+Print Assumptions C11_frame_condition_satisfiable.
 
 (** the known classes: one witness each (failure site, writes not undone) *)
 Theorem C11_insert_after_row_trigger_refuted : exists d st, wf d /\ changed_after_error d st (AtAfterRow 1) 1.
